@@ -191,9 +191,11 @@ class PropertyRun:
                 continue
             pend.extend([o for o in os_ if o.result != "unsat"][:3])
 
+        for o in pend:  # z3's API is not thread safe: all printing happens here, the pool only runs solver processes
+            o.rtxt = smt.to_smt2_relaxed(o.axioms, o.assumptions, o.goal)
+
         def relaxed(o):
-            rtxt = smt.to_smt2_relaxed(o.axioms, o.assumptions, o.goal)
-            rr = smt.solve(rtxt, self.timeout)
+            rr = smt.solve(o.rtxt, self.timeout)
             o.tried = o.tried + [("relaxed:" + str(b), v, t) for b, v, t in rr["tried"]]
             if rr["verdict"] == "unsat":
                 o.result, o.backend, o.time = "unsat", "relaxed/" + str(rr["backend"]), o.time + rr["time"]
